@@ -139,9 +139,14 @@ class DefGen:
             tag = next(t for t in range(50) if t not in tags)
             tags.add(tag)
             f["tag"] = tag
-            f["versions"] = f"{ta}+"
+            # usually the field is born tagged; sometimes it exists untagged in earlier versions and
+            # becomes tagged later (tag resolution is per version)
+            partial = b is None and a < ta and kind in ("prim", "time", "error", "primArr", "structArr") and r.random() < 0.4
+            if not partial:
+                f["versions"] = f"{ta}+"
+            nv_lo = a if partial else ta
             if "nullableVersions" in f and kind != "struct":
-                f["nullableVersions"] = f"{ta}+"
+                f["nullableVersions"] = f"{nv_lo}+"
             if kind == "struct" and "default" in f:
                 del f["default"]
             t = f.get("type")
@@ -154,7 +159,7 @@ class DefGen:
             elif r.random() < 0.5:
                 f["ignorable"] = True                # ignorable *and* an explicit default: the explicit one wins
             if kind == "prim" and f.get("default") == "null":
-                f["nullableVersions"] = f"{ta}+"
+                f["nullableVersions"] = f"{nv_lo}+"
             # a tagged nullable field needs None as its (explicit) default
             if kind == "prim" and "nullableVersions" in f and "default" not in f and not f.get("ignorable"):
                 if r.random() < 0.5:
@@ -195,3 +200,58 @@ def gen_set(rng: random.Random, n: int, start_serial: int = 0):
         key = 1000 + start_serial + i if kind in ("request", "response") else None
         out.append(g.gen_def(kind, key))
     return out
+
+
+def crafted() -> list[dict]:
+    """hand-crafted definitions: every per-version attribute crossing a version boundary *inside*
+    the life of a field (born untagged → tagged later, non-nullable → nullable later, visible in a
+    closed range), for each family of types.  Part of every run (first set)."""
+    def F(name, typ, versions="0+", **kw):
+        return {"name": name, "type": typ, "versions": versions, **kw}
+    late = dict(taggedVersions="2+", ignorable=True)
+    d1 = {"type": "request", "name": "Zc1LateTagRequest", "apiKey": 1900, "validVersions": "0-3", "flexibleVersions": "1+",
+          "fields": [
+              F("Anchor", "int32"),
+              F("Note", "string", tag=0, **late),
+              F("Blob", "bytes", tag=1, **late),
+              F("Ident", "uuid", tag=2, **late),
+              F("Count", "int32", tag=3, **late),
+              F("Flag", "bool", tag=4, **late),
+              F("Ratio", "float64", tag=5, **late),
+              F("SessionTimeoutMs", "int32", tag=6, **late),
+              F("RetentionTimeMs", "int64", tag=7, **late),
+              F("ExpiryTimestampMs", "int64", tag=8, **late),
+              F("ErrorCode", "int16", tag=9, **late),
+              F("Numbers", "[]int32", tag=10, taggedVersions="3+"),
+              F("Words", "[]string", tag=11, taggedVersions="2+", ignorable=True),
+              F("Parts", "[]Zc1Part", tag=12, taggedVersions="2+", fields=[
+                  F("Index", "int32"), F("Label", "string", tag=0, **late), F("Late", "int16", versions="2+")]),
+          ]}
+    d2 = {"type": "response", "name": "Zc1LateTagResponse", "apiKey": 1900, "validVersions": "0-3", "flexibleVersions": "1+",
+          "fields": [
+              F("ThrottleTimeMs", "int32", versions="1+"),
+              F("ErrorCode", "int16"),
+              F("Owner", "string", nullableVersions="1+"),
+              F("Payload", "bytes", nullableVersions="2-3"),
+              F("Records", "records", versions="1-2", nullableVersions="2"),
+              F("LogAppendTimeMs", "int64", versions="2+", default="-1"),
+              F("Gone", "int8", versions="0-1"),
+              F("Middle", "string", versions="1-2", default="abc"),
+              F("Groups", "[]Zc1Group", nullableVersions="3+", fields=[
+                  F("GroupId", "string", entityType="groupId"),
+                  F("Members", "[]Zc1Member", versions="1+", fields=[F("Id", "int32"), F("Type", "string", versions="2+", nullableVersions="3+")]),
+                  F("State", "Zc1State", versions="2+", nullableVersions="3+", fields=[F("Code", "int8"), F("Text", "string", default="")]),
+              ]),
+              F("Extra", "Zc1Extra", versions="1+", taggedVersions="1+", tag=0, fields=[
+                  F("Level", "int32", default="-1"), F("Name", "string", default="none")]),
+          ]}
+    d3 = {"type": "data", "name": "Zc2WideRecord", "validVersions": "0-12", "flexibleVersions": "10+",
+          "fields": [
+              F("Version", "int16"),
+              F("Early", "string", versions="0-9"),
+              F("Late", "string", versions="10+", nullableVersions="11+"),
+              F("Eleven", "int64", versions="11+", default="0x7fffffffffffffff"),
+              F("Tagged", "string", versions="3+", taggedVersions="11+", tag=0, ignorable=True),
+              F("Items", "[]Zc2Item", versions="2-11", fields=[F("Key", "string"), F("Value", "bytes", versions="9+", nullableVersions="10+")]),
+          ]}
+    return [d1, d2, d3]
